@@ -35,9 +35,11 @@
    NUMBERS  exact rationals <<n,d>> (spec/common/RationalX.tla = Rational.tla with cancellation before multiplication).
    `lin` = (number density x cross-section area) of a component relative to its initial value, i.e. mass per unit height: the radial part of a temperature change
    (Component.setTemperature) leaves it unchanged, the axial step divides it by g.  mass(c) = lin(c) * height(block of c)
-   (Component.getVolume = area * parent.getHeight()).  Temperatures are levels tau = (Tc - 25)/500; the two solid
-   materials of the model have L_A = 1 + tau/10, L_B = 1 + tau/20 (the adapter supplies materials with exactly
-   these linearExpansionPercent laws).
+   (Component.getVolume = area * parent.getHeight()).  Temperatures are levels tau = Tc/250 (tau = 0 is exactly
+   0.0 C = the input temperature of every component, tau = -1 is -250 C); a design gives the hot level A.hot its components
+   are built at (Thot >= Tinput).  The two solid materials of the model have L_A = 1 + tau/20, L_B = 1 + tau/40 (the adapter
+   supplies materials with exactly these linearExpansionPercent laws).  Links are decided on COLD (input) dimensions =
+   the catalogue's integers, as areAxiallyLinked documents, whatever A.hot is.
 
    INTERPRETATION OF THE STATEMENT (clauses -> named invariants)
      total height unchanged                       TotalHeightPreserved
@@ -87,7 +89,7 @@ EXTENDS RationalX, TLC, Json
 
 CONSTANTS Designs,        \* set of [types |-> <<block types below the top block, bottom-up>>, hs |-> <<their heights>>,
                           \*         top |-> "" (fluid-only DUMMY block) or a block type, hd |-> height of the top block,
-                          \*         det |-> the changer's detailedAxialExpansion flag]
+                          \*         det |-> the changer's detailedAxialExpansion flag, hot |-> temperature level the components are built at]
           Growths,        \* growth fractions L1/L0 (rationals) a prescribed call may use
           MaxNonUnit,     \* a prescribed call changes at most this many components (Uniform calls are always explored)
           LevelTriples,   \* thermal fields are 3-step profiles <<l1,l2,l3>> with two break points; {} = no thermal calls
@@ -113,19 +115,24 @@ vars == <<A, zb, zt, h, comp, tname, mesh, placed, broken, err, act, path, pre, 
 \* component types: shape class, multiplicity, inner / outer bounding diameter (integers; the adapter scales them),
 \* solid or fluid, material (expansion law), flags
 CT == [
-  fuel    |-> [cls |-> "Circle",  mult |-> 4, idm |-> 0,  od |-> 2,  solid |-> TRUE,  mat |-> "A", flags |-> {"fuel"}],
-  bigfuel |-> [cls |-> "Circle",  mult |-> 2, idm |-> 0,  od |-> 2,  solid |-> TRUE,  mat |-> "A", flags |-> {"fuel"}],
-  afuel   |-> [cls |-> "Circle",  mult |-> 4, idm |-> 1,  od |-> 2,  solid |-> TRUE,  mat |-> "A", flags |-> {"fuel", "annular"}],
-  shield  |-> [cls |-> "Circle",  mult |-> 4, idm |-> 0,  od |-> 2,  solid |-> TRUE,  mat |-> "B", flags |-> {"shield"}],
-  control |-> [cls |-> "Circle",  mult |-> 4, idm |-> 0,  od |-> 2,  solid |-> TRUE,  mat |-> "A", flags |-> {"control"}],
-  poison  |-> [cls |-> "Circle",  mult |-> 2, idm |-> 0,  od |-> 1,  solid |-> TRUE,  mat |-> "A", flags |-> {"poison"}],
-  slug    |-> [cls |-> "Circle",  mult |-> 4, idm |-> 0,  od |-> 2,  solid |-> TRUE,  mat |-> "B", flags |-> {"slug"}],
-  bond    |-> [cls |-> "Circle",  mult |-> 4, idm |-> 2,  od |-> 3,  solid |-> FALSE, mat |-> "F", flags |-> {"bond"}],
-  clad    |-> [cls |-> "Circle",  mult |-> 4, idm |-> 3,  od |-> 4,  solid |-> TRUE,  mat |-> "B", flags |-> {"clad"}],
-  liner   |-> [cls |-> "Circle",  mult |-> 4, idm |-> 1,  od |-> 4,  solid |-> TRUE,  mat |-> "B", flags |-> {"liner"}],
-  wire    |-> [cls |-> "Circle",  mult |-> 4, idm |-> 0,  od |-> 1,  solid |-> TRUE,  mat |-> "B", flags |-> {"wire"}],
-  duct    |-> [cls |-> "Hexagon", mult |-> 1, idm |-> 75, od |-> 80, solid |-> TRUE,  mat |-> "B", flags |-> {"duct"}],
-  blob    |-> [cls |-> "Unshaped", mult |-> 1, idm |-> 0, od |-> 2,  solid |-> TRUE,  mat |-> "B", flags |-> {"structure"}]
+  fuel    |-> [cls |-> "Circle",  mult |-> 4, idm |-> 0,  od |-> 20, solid |-> TRUE,  mat |-> "A", flags |-> {"fuel"}],
+  bigfuel |-> [cls |-> "Circle",  mult |-> 2, idm |-> 0,  od |-> 20, solid |-> TRUE,  mat |-> "A", flags |-> {"fuel"}],
+  afuel   |-> [cls |-> "Circle",  mult |-> 4, idm |-> 10, od |-> 20, solid |-> TRUE,  mat |-> "A", flags |-> {"fuel", "annular"}],
+  shield  |-> [cls |-> "Circle",  mult |-> 4, idm |-> 0,  od |-> 20, solid |-> TRUE,  mat |-> "B", flags |-> {"shield"}],
+  control |-> [cls |-> "Circle",  mult |-> 4, idm |-> 0,  od |-> 20, solid |-> TRUE,  mat |-> "A", flags |-> {"control"}],
+  poison  |-> [cls |-> "Circle",  mult |-> 2, idm |-> 0,  od |-> 10, solid |-> TRUE,  mat |-> "A", flags |-> {"poison"}],
+  slug    |-> [cls |-> "Circle",  mult |-> 4, idm |-> 0,  od |-> 20, solid |-> TRUE,  mat |-> "B", flags |-> {"slug"}],
+  bond    |-> [cls |-> "Circle",  mult |-> 4, idm |-> 20, od |-> 30, solid |-> FALSE, mat |-> "F", flags |-> {"bond"}],
+  clad    |-> [cls |-> "Circle",  mult |-> 4, idm |-> 30, od |-> 40, solid |-> TRUE,  mat |-> "B", flags |-> {"clad"}],
+  \* marginal radial overlaps with the clad (30,40), decided on COLD dimensions: the sleeve's bore 39 is just inside the
+  \* clad's outside 40 (linked; a bore taken hot, x1.05 at level 2, would not be), the ring's bore 41 is just outside it
+  \* (not linked; a clad outside taken hot, 42, would be)
+  sleeve  |-> [cls |-> "Circle",  mult |-> 4, idm |-> 39, od |-> 45, solid |-> TRUE,  mat |-> "B", flags |-> {"clad"}],
+  ring    |-> [cls |-> "Circle",  mult |-> 4, idm |-> 41, od |-> 46, solid |-> TRUE,  mat |-> "B", flags |-> {"clad"}],
+  liner   |-> [cls |-> "Circle",  mult |-> 4, idm |-> 10, od |-> 40, solid |-> TRUE,  mat |-> "B", flags |-> {"liner"}],
+  wire    |-> [cls |-> "Circle",  mult |-> 4, idm |-> 0,  od |-> 10, solid |-> TRUE,  mat |-> "B", flags |-> {"wire"}],
+  duct    |-> [cls |-> "Hexagon", mult |-> 1, idm |-> 750, od |-> 800, solid |-> TRUE, mat |-> "B", flags |-> {"duct"}],
+  blob    |-> [cls |-> "Unshaped", mult |-> 1, idm |-> 0, od |-> 20, solid |-> TRUE,  mat |-> "B", flags |-> {"structure"}]
 ]
 \* block types: flags of the block, components in blueprint order
 BT == [
@@ -143,6 +150,8 @@ BT == [
   slug     |-> [flags |-> {"reflector"}, comps |-> <<"slug", "clad">>],
   plenum   |-> [flags |-> {"plenum"},  comps |-> <<"bond", "clad">>],
   plenumd  |-> [flags |-> {"plenum"},  comps |-> <<"clad", "duct">>],
+  plenums  |-> [flags |-> {"plenum"},  comps |-> <<"bond", "sleeve">>],    \* clad tube sleeved over the clad below (marginal, linked)
+  plenumr  |-> [flags |-> {"plenum"},  comps |-> <<"bond", "ring">>],      \* clad tube just clear of the clad below (marginal, not linked)
   aclp     |-> [flags |-> {"aclp"},    comps |-> <<"clad", "duct">>],
   plenduct |-> [flags |-> {"plenum"},  comps |-> <<"bond", "duct">>],
   ductonly |-> [flags |-> {"duct"},    comps |-> <<"duct", "bond">>],
@@ -176,7 +185,7 @@ DLinks(d, b, i, bb) == {j \in 1..Len(DNames(d, bb)) : LinkedTy(CT[DNames(d, b)[i
 Pick(S) == IF S = {} THEN 0 ELSE CHOOSE j \in S : TRUE
 StaticOf(d, ex) ==
     LET k == Len(d.types) IN
-    [types |-> d.types, hs |-> d.hs, hd |-> d.hd, top |-> d.top, det |-> d.det, k |-> k,
+    [types |-> d.types, hs |-> d.hs, hd |-> d.hd, top |-> d.top, det |-> d.det, hot |-> d.hot, k |-> k,
      expl  |-> [b \in 1..(k + 1) |-> IF ex[b] = 0 THEN "" ELSE DNames(d, b)[ex[b]]],   \* blueprint (explicit) target names
      H     |-> SumSeq(d.hs, k) + d.hd,
      ng    |-> (SumSeq(d.hs, k) + d.hd) \div 2,
@@ -326,8 +335,8 @@ Pts(b) == {j \in 1..NG : InBlock(b, j)}
 RECURSIVE SumIn(_, _, _)
 SumIn(field, pts, j) == IF j = 0 THEN 0 ELSE (IF j \in pts THEN field[j] ELSE 0) + SumIn(field, pts, j - 1)
 Tavg(field, pts) == RFrac(SumIn(field, pts, NG), Cardinality(pts))
-LF(mat, tau) == IF mat = "A" THEN RAdd(ROne, RDiv(tau, RInt(10)))
-                ELSE IF mat = "B" THEN RAdd(ROne, RDiv(tau, RInt(20)))
+LF(mat, tau) == IF mat = "A" THEN RAdd(ROne, RDiv(tau, RInt(20)))
+                ELSE IF mat = "B" THEN RAdd(ROne, RDiv(tau, RInt(40)))
                 ELSE ROne
 ThermalG(cT, fromInput) ==
     [b \in 1..NBk |-> [i \in 1..NC(b) |->
@@ -358,7 +367,7 @@ InitFor(d, ex) ==
        /\ zb = [b \in 1..(k + 1) |-> RInt(SumSeq(hh, b - 1))]
        /\ h  = [b \in 1..(k + 1) |-> RInt(hh[b])]
        /\ comp = [b \in 1..(k + 1) |-> [i \in 1..Len(DNames(d, b)) |->
-                                          [h |-> RZero, zb |-> RZero, zt |-> RZero, lin |-> ROne, T |-> RZero]]]
+                                          [h |-> RZero, zb |-> RZero, zt |-> RZero, lin |-> ROne, T |-> RInt(d.hot)]]]
        /\ tname = ex
        /\ mesh = <<>> /\ placed = FALSE /\ broken = FALSE /\ err = "" /\ act = [n |-> "Init"] /\ path = <<>>
        /\ pre = <<>> /\ lg = <<>> /\ pre2 = <<>> /\ lg2 = <<>>
@@ -456,7 +465,7 @@ Obs == [zb |-> zb, zt |-> zt, h |-> h, mesh |-> mesh, placed |-> placed, broken 
                     [name |-> CNames(b)[i], solid |-> Solid(b, i),
                      h |-> comp[b][i].h, zb |-> comp[b][i].zb, zt |-> comp[b][i].zt,
                      lin |-> comp[b][i].lin, T |-> comp[b][i].T,
-                     ndr |-> RDiv(comp[b][i].lin, Sq(LF(A.mat[b][i], comp[b][i].T))),
+                     ndr |-> RDiv(comp[b][i].lin, Sq(RDiv(LF(A.mat[b][i], comp[b][i].T), LF(A.mat[b][i], RInt(A.hot))))),
                      mass |-> ObsMass(b, i),
                      lower |-> IF MultiLinked THEN "" ELSE NameOf(b - 1, Lower(b, i)),
                      upper |-> IF MultiLinked THEN "" ELSE NameOf(b + 1, Upper(b, i))]]]]
